@@ -692,6 +692,8 @@ func main() {
 	})
 }
 
+var npanicNotes int
+
 func account(c *rig.Ctx, cs Case, res runResult) {
 	remoteHanded, outage, recovered := false, false, false
 	for i, o := range res.Obs {
@@ -751,6 +753,10 @@ func account(c *rig.Ctx, cs Case, res runResult) {
 	}
 	if res.Panic != "" {
 		c.Count("case:panic")
+		if npanicNotes < 4 {
+			npanicNotes++
+			c.Note("panic (model agrees) after %d ops: %s; case %s", len(res.Obs), res.Panic, rig.Canon(cs))
+		}
 	}
 	if cs.KindChange {
 		c.Count("case:kind-change(diff only)")
